@@ -104,3 +104,11 @@ prop("C13", modules=["version"],
      trusted=["coherence lemma over the per-call contracts under environment assumption E (DESIGN section 6, C13): every in-process event that changes the from-scratch version is a registration or makes a collected rule report change",
               "_recompute_version returns the from-scratch version (assumed contract)"],
      assumptions=["within one call the answers of rule.did_change() and the from-scratch version do not change"])
+
+prop("C14", modules=["deps"],
+     functions=[MFN + "_validate_dependency", MFN + "call", MFN + "call_batch",
+                "dependency_graph:DependencyGraph.transitive_memento_fn_dependencies", "dependency_graph:DependencyGraph.direct_memento_fn_dependencies"],
+     design_ref="DESIGN.md section 6, C14",
+     trusted=["_extract_fn_ref_args (recursive walk over argument structures) is summarised by in_fnref_names (assumed)",
+              "exactness of the collected rule list w.r.t. the program's reference graph (list_dotted_names / collect_transitive_dependencies) is NOT claimed: AST visitor and dynamic resolution are outside the verifier's subset"],
+     assumptions=["x.fn_reference().qualified_name is a function of the memento function object within one call (qname_of)"])
